@@ -13,7 +13,8 @@
 (*   Close:      close.enter  close.locked  close.decided  close.waiting   *)
 (*               close.return                                              *)
 (*   admission:  cmd.admit  cmd.locked  cmd.added | cmd.refused            *)
-(*               h.enter (gate inside the statement function)  cmd.done    *)
+(*               cmd.admitted  h.enter (gate inside the statement          *)
+(*               function)  cmd.done                                       *)
 (*                                                                         *)
 (* Variant = "repaired": the design of the current tree - the closing      *)
 (* transition and the admission are critical sections of one mutex; every  *)
@@ -193,12 +194,19 @@ CDecide(c) ==
             /\ UNCHANGED mu
     /\ UNCHANGED <<closing, chanClosed, lclosed, cgDone, served, kpc, saw, returned>>
 
-\* cmd.added -> h.enter: leave the critical section, the handler starts
+\* cmd.added -> cmd.admitted: leave the critical section; the command is
+\* registered - Close waits for it from here on, before its handler has begun
 CEnter(c) ==
     /\ cpc[c] = "added"
     /\ IF Locked THEN mu' = "free" ELSE UNCHANGED mu
-    /\ cpc' = [cpc EXCEPT ![c] = "handler"]
+    /\ cpc' = [cpc EXCEPT ![c] = "admitted"]
     /\ UNCHANGED <<closing, chanClosed, wg, lclosed, cgDone, served, kpc, saw, returned>>
+
+\* cmd.admitted -> h.enter: the handler starts
+CStart(c) ==
+    /\ cpc[c] = "admitted"
+    /\ cpc' = [cpc EXCEPT ![c] = "handler"]
+    /\ UNCHANGED <<closing, chanClosed, mu, wg, lclosed, cgDone, served, kpc, saw, returned>>
 
 \* h.enter -> cmd.done: the handler finishes and the command is deregistered
 CFinish(c) ==
@@ -216,7 +224,7 @@ CLoop(c) ==
 ---------------------------------------------------------------------------
 
 KStep(k) == KStart(k) \/ KLock(k) \/ KDecide(k) \/ KUnlock(k) \/ KWaitBegin(k) \/ KWaitEnd(k) \/ KReturn(k)
-CStep(c) == Deliver(c) \/ DeliverPart(c) \/ CLock(c) \/ CDecide(c) \/ CEnter(c) \/ CFinish(c) \/ CLoop(c)
+CStep(c) == Deliver(c) \/ DeliverPart(c) \/ CLock(c) \/ CDecide(c) \/ CEnter(c) \/ CStart(c) \/ CFinish(c) \/ CLoop(c)
 
 SNext == (\E k \in Closers : KStep(k)) \/ (\E c \in Conns : CStep(c)) \/ CloserGo \/ ServeReturn
 
@@ -234,7 +242,7 @@ NoPanic == chanClosed <= 1 /\ \A k \in Closers : kpc[k] # "panicked"
 CounterOK == wg >= 0
 
 \* Close returns only after every command handler that had started has finished
-Graceful == \A k \in Closers : kpc[k] \in {"return", "done"} => \A c \in Conns : cpc[c] \notin {"added", "handler"}
+Graceful == \A k \in Closers : kpc[k] \in {"return", "done"} => \A c \in Conns : cpc[c] \notin {"added", "admitted", "handler"}
 
 \* once a Close has returned, no parser or statement function begins
 NoStartAfterReturn ==
